@@ -128,6 +128,7 @@ type HarnessSpec struct {
 	Enumerate bool   `json:"enumerate"` // enumerate all models of known-finding obligations
 	Split     map[string][2]int64 `json:"split,omitempty"` // labels enumerated concretely (cube splitting): label -> [lo,hi]
 	Procs     int    `json:"procs,omitempty"` // worker processes for cubes
+	PureFP    bool   `json:"purefp,omitempty"` // no lifting of floats: every float operation goes to the solver (FloatingPoint theory)
 	Histories bool   `json:"histories,omitempty"` // run twice (vrt.HistoryStep() false / true) and require equal vrt.Observe values
 	index     int    // position in the registry (addresses the entry for cube workers)
 	// known-finding handling: assertions whose message starts with "KF:" are expected-sat
@@ -222,6 +223,8 @@ func (w *World) runHarnessOnce(spec HarnessSpec, ro runOpts, fixed map[string]in
 	ex := w.newExecWithInit()
 	ex.fixed = fixed
 	exOut = ex
+	pureFP = spec.PureFP
+	defer func() { pureFP = false }()
 	terms0 := TS.nextID
 	lift0 := TS.liftOps
 	ex.callFunction(fn, nil, nil, True)
@@ -298,6 +301,14 @@ func (w *World) runHarnessOnce(spec HarnessSpec, ro runOpts, fixed map[string]in
 			o2, ok := byLabel[o.Label]
 			if !ok {
 				continue
+			}
+			if os.Getenv("SYMGO_DEBUG_HIST") != "" {
+				if ta, ok := o.V.(*Term); ok {
+					if tb, ok := o2.V.(*Term); ok && ta != tb {
+						fmt.Fprintf(os.Stderr, "HIST-DIFF %s:\n", o.Label)
+						diffTerms(ta, tb, 0, map[[2]int]bool{})
+					}
+				}
 			}
 			b.Obls = append(b.Obls, &Obligation{Name: "history-free: " + o.Label, Kind: "history", Formula: And(o.G, o2.G, valuesDiffer(o.V, o2.V)), Expect: VUnsat})
 		}
@@ -623,6 +634,13 @@ func main() {
 		cmdCheck(os.Args[2:])
 	case "selftest":
 		cmdSelftest()
+		if len(os.Args) > 2 && os.Args[2] == "-solvers-only" {
+			return
+		}
+		if !cmdSelftestTranslator("/repo", "/verif", 1) {
+			fmt.Println("selftest FAILED (translator validation)")
+			os.Exit(2)
+		}
 	default:
 		fmt.Println("unknown command")
 		os.Exit(2)
@@ -768,4 +786,35 @@ func summarize(rep HarnessReport) {
 			}
 		}
 	}
+}
+
+func diffTerms(a, b *Term, depth int, seen map[[2]int]bool) bool {
+	if a == b || depth > 40 {
+		return false
+	}
+	k := [2]int{a.id, b.id}
+	if seen[k] {
+		return false
+	}
+	seen[k] = true
+	if a.op != b.op || len(a.args) != len(b.args) || len(a.cases) != len(b.cases) {
+		fmt.Fprintf(os.Stderr, "  depth %d: differ structurally:\n    A=%v\n    B=%v\n", depth, a.str(4), b.str(4))
+		return true
+	}
+	for i := range a.args {
+		if diffTerms(a.args[i], b.args[i], depth+1, seen) {
+			return true
+		}
+	}
+	for i := range a.cases {
+		if a.cases[i].V != b.cases[i].V {
+			fmt.Fprintf(os.Stderr, "  depth %d: case value differs %v / %v\n", depth, a.cases[i].V, b.cases[i].V)
+			return true
+		}
+		if diffTerms(a.cases[i].G, b.cases[i].G, depth+1, seen) {
+			return true
+		}
+	}
+	fmt.Fprintf(os.Stderr, "  depth %d: leaf difference A=%v B=%v\n", depth, a.str(1), b.str(1))
+	return true
 }
